@@ -64,4 +64,18 @@ def roll (t : Tables) : Roll R64 := { reset := reset t, slide := slide t, hash :
 def hashBlock (poly : UInt64) (bs : Bytes) : UInt64 :=
   bs.foldl (fun h v => modulo ((h <<< 8) ||| v.toUInt64) poly) 0
 
+/-- The *literal* reading of the property text: a cut at the first length `L ≥ min` at which `L ≥ max`,
+or the fingerprint of the most recent `win` bytes of the chunk has zero low bits, or the input ends.
+(The code's window differs from this for `min ≤ L < min + win`, see DESIGN §7 #16.) -/
+def litCutFrom (poly mask : UInt64) (mx win : Nat) (bs : Bytes) : Nat → Nat → Nat
+  | 0, L => L
+  | fuel + 1, L =>
+    if L ≥ bs.length then bs.length
+    else if L ≥ mx then L
+    else if hashBlock poly ((bs.take L).drop (L - win)) &&& mask = 0 then L
+    else litCutFrom poly mask mx win bs fuel (L + 1)
+
+def litCut (poly mask : UInt64) (mn mx win : Nat) (bs : Bytes) : Nat :=
+  if bs.length < mn then bs.length else litCutFrom poly mask mx win bs (bs.length + 1) mn
+
 end Rustic.Rabin
